@@ -62,6 +62,29 @@ CLAIMED = {
         design_ref='DESIGN.md 5 (C09)',
         note=TRUST + '; assumed contracts for sqrt (monotone, >= 0), atan2 range, Normal/Student (recorded arguments), q_xx as an uninterpreted function',
         technique='contract-based deductive verification (CBMC dfcc contracts; z3 real-arithmetic lemmas on the extracted text)'),
+    'C03': dict(
+        category='other',
+        text='Partial and mixed: (proof) the query layer of AdjEnvelope returns cofactors only from vectors whose ghost tag says they ARE the '
+             'cofactor vector asked for (q_xx, q0_xx, q_bb; cache coherence, index spaces), Envelope::element is symmetric, cholDec zeroes and '
+             'counts dependent pivots; (bounded, labelled as such in the evidence) in-place LDL\' and the sparse inverse of the real extracted '
+             'code equal the dense formulas EXACTLY on exactly representable inputs (dim 2 quick; dim 3, all six row-band shapes, thorough). '
+             'N Q N = N for arbitrary real matrices, the projector identities and the XML cov-mat are not decided.',
+        design_ref='DESIGN.md 5 (C03)',
+        note=TRUST + '; the bounded tier relies on IEEE exactness for small-integer inputs with power-of-two pivots and is never counted as proved',
+        technique='contract-based deductive verification (CBMC dfcc contracts with ghost tags) + bounded CBMC check of the extracted kernels on exact inputs'),
+    'C15': dict(
+        category='proof',
+        text='Matrix library under contract: the packed/banded index maps of Vec, Mat, SymMat, CovMat, BandMat (real operator()/operator[] '
+             'bodies) are overflow-free and in bounds (CBMC, d <= 2^15 stated) and bijective/symmetric/layout-correct over mathematical '
+             'integers (z3, unbounded, on expressions translated mechanically from the extracted text); MemRep keeps its ownership invariant '
+             'through every constructor, assignment, move, resize and destructor for all size pairs, copies are independent of their source, '
+             'negative sizes raise; element-wise kernels (scale, add, sub, mul, dot, set_all) raise exactly on non-conforming operands, stay '
+             'inside the operands under every aliasing and add/sub are exact element-wise; SVD row tables (min_x, reset_UWV) are memory-safe. '
+             'Bounded only (thorough): CovMat::cholDec/solve exact on dim <= 3. SVD reconstruction, Moore-Penrose conditions, inv(A)A = I are '
+             'not decided (floating point, iterative).',
+        design_ref='DESIGN.md 5 (C15)',
+        note=TRUST + '; libc memcpy enters through an assumed contract (regions valid and disjoint, contents copied at a ghost index)',
+        technique='contract-based deductive verification (CBMC dfcc contracts; z3 integer lemmas on the extracted index expressions)'),
 }
 
 NA = {
